@@ -20,6 +20,9 @@ int mshell_execute(char *str,
 
     argc = argvc_internal_split(str, argv, SSHELL_ARGCMAX);
 
+    if (argc == 0)
+        return ENOENT;
+
     const struct mshell_command *it = cmdtable;
     while (it->func != NULL)
     {
@@ -50,6 +53,9 @@ int mshell_tables_execute(char *str,
     }
 
     argc = argvc_internal_split(str, argv, SSHELL_ARGCMAX);
+
+    if (argc == 0)
+        return ENOENT;
 
     const struct mshell_command *const *tit = tables;
     while (*tit != NULL)
